@@ -223,30 +223,49 @@ func get1024(b bm.Bit1024, t ity, rev bool, n int) getOut {
 
 // ---------------------------------------------------------------- Coq printing
 
-func coqN(v uint64) string { return fmt.Sprintf("%d%%N", v) }
+// a 64-bit word is spelled  wb b0 ... b7  (little-endian byte constructors, see C08_Lit.v)
+func leBytes(v uint64) string {
+	p := make([]string, 8)
+	for k := 0; k < 8; k++ {
+		p[k] = fmt.Sprintf("x%02x", (v>>(8*uint(k)))&0xff)
+	}
+	return strings.Join(p, " ")
+}
+func coqW(v uint64) string { return "wb " + leBytes(v) }
+func coqN(v uint64) string { return "(" + coqW(v) + ")" }
 func coqWords(b []bm.Bit64) string {
 	s := make([]string, len(b))
 	for i, w := range b {
-		s[i] = fmt.Sprintf("%d", uint64(w))
+		s[i] = coqW(uint64(w))
 	}
-	return "[" + strings.Join(s, ";") + "]%N"
+	return "[" + strings.Join(s, ";") + "]"
+}
+// integers: small ones as numerals, large ones as  zp b0..b7 / zn b0..b7  (C08_Lit.v)
+func coqZ(x int64) string {
+	if x > -(1<<20) && x < 1<<20 {
+		if x < 0 {
+			return fmt.Sprintf("(%d)%%Z", x)
+		}
+		return fmt.Sprintf("%d%%Z", x)
+	}
+	if x < 0 {
+		return "(zn " + leBytes(uint64(-x)) + ")" // MinInt64 maps to 2^63
+	}
+	return "(zp " + leBytes(uint64(x)) + ")"
 }
 func coqZs(xs []int64) string {
 	s := make([]string, len(xs))
 	for i, x := range xs {
-		if x < 0 {
-			s[i] = fmt.Sprintf("(%d)", x)
-		} else {
-			s[i] = fmt.Sprintf("%d", x)
-		}
+		s[i] = coqZ(x)
 	}
-	return "[" + strings.Join(s, ";") + "]%Z"
+	return "[" + strings.Join(s, ";") + "]"
 }
+func coqZu(v uint64) string { return "(zp " + leBytes(v) + ")" }
 func coqOut(o iterOut) string {
 	if o.Panic {
 		return "Panic"
 	}
-	return fmt.Sprintf("(Ok %s %s)", coqZs(o.Buf), vh.CoqZ(int64(o.Count)))
+	return fmt.Sprintf("(Ok %s %s)", coqZs(o.Buf), coqZ(int64(o.Count)))
 }
 func coqGOut(o getOut) string {
 	if o.Panic {
@@ -337,8 +356,8 @@ func run(e *vh.Env, sp spec) {
 		bm.VerifSetSparseMagic(sp.Magic)
 		o := iter64(w, t, sp.Rev, fill(t, sp.BufL, sp.Seed), sp.Pos, sp.Add, sp.N)
 		bm.VerifSetSparseMagic(9)
-		coq = fmt.Sprintf("CIter64 %s %s %s %s (fill %s %d %d) %s %s %s %s", ityName[t], vh.CoqBool(sp.Rev), vh.CoqZ(int64(sp.Magic)), coqN(uint64(w)),
-			ityName[t], sp.BufL, sp.Seed, vh.CoqZ(int64(sp.Pos)), vh.CoqZ(sp.Add), vh.CoqZ(int64(sp.N)), coqOut(o))
+		coq = fmt.Sprintf("CIter64 %s %s %s %s (fill %s %d %d) %s %s %s %s", ityName[t], vh.CoqBool(sp.Rev), coqZ(int64(sp.Magic)), coqN(uint64(w)),
+			ityName[t], sp.BufL, sp.Seed, coqZ(int64(sp.Pos)), coqZ(sp.Add), coqZ(int64(sp.N)), coqOut(o))
 		class = fmt.Sprintf("iter64/%s/%s", ityName[t], dirName(sp.Rev))
 		nontrivial = w != 0
 		desc["observed"] = o
@@ -347,8 +366,8 @@ func run(e *vh.Env, sp spec) {
 		bm.VerifSetSparseMagic(sp.Magic)
 		o := iter1024(b, t, sp.Rev, fill(t, sp.BufL, sp.Seed), sp.Pos, sp.Add, sp.N)
 		bm.VerifSetSparseMagic(9)
-		coq = fmt.Sprintf("CIter1024 %s %s %s %s (fill %s %d %d) %s %s %s %s", ityName[t], vh.CoqBool(sp.Rev), vh.CoqZ(int64(sp.Magic)), coqWords(b),
-			ityName[t], sp.BufL, sp.Seed, vh.CoqZ(int64(sp.Pos)), vh.CoqZ(sp.Add), vh.CoqZ(int64(sp.N)), coqOut(o))
+		coq = fmt.Sprintf("CIter1024 %s %s %s %s (fill %s %d %d) %s %s %s %s", ityName[t], vh.CoqBool(sp.Rev), coqZ(int64(sp.Magic)), coqWords(b),
+			ityName[t], sp.BufL, sp.Seed, coqZ(int64(sp.Pos)), coqZ(sp.Add), coqZ(int64(sp.N)), coqOut(o))
 		class = fmt.Sprintf("iter1024/%s/%s", ityName[t], dirName(sp.Rev))
 		nontrivial = popcount1024(b) > 0
 		desc["observed"] = o
@@ -357,7 +376,7 @@ func run(e *vh.Env, sp spec) {
 		bm.VerifSetSparseMagic(sp.Magic)
 		o := get64(w, t, sp.Rev, sp.N)
 		bm.VerifSetSparseMagic(9)
-		coq = fmt.Sprintf("CGet64 %s %s %s %s %s %s", ityName[t], vh.CoqBool(sp.Rev), vh.CoqZ(int64(sp.Magic)), coqN(uint64(w)), vh.CoqZ(int64(sp.N)), coqGOut(o))
+		coq = fmt.Sprintf("CGet64 %s %s %s %s %s %s", ityName[t], vh.CoqBool(sp.Rev), coqZ(int64(sp.Magic)), coqN(uint64(w)), coqZ(int64(sp.N)), coqGOut(o))
 		class = fmt.Sprintf("get64/%s/%s", ityName[t], dirName(sp.Rev))
 		nontrivial = w != 0
 		desc["observed"] = o
@@ -366,7 +385,7 @@ func run(e *vh.Env, sp spec) {
 		bm.VerifSetSparseMagic(sp.Magic)
 		o := get1024(b, t, sp.Rev, sp.N)
 		bm.VerifSetSparseMagic(9)
-		coq = fmt.Sprintf("CGet1024 %s %s %s %s %s %s", ityName[t], vh.CoqBool(sp.Rev), vh.CoqZ(int64(sp.Magic)), coqWords(b), vh.CoqZ(int64(sp.N)), coqGOut(o))
+		coq = fmt.Sprintf("CGet1024 %s %s %s %s %s %s", ityName[t], vh.CoqBool(sp.Rev), coqZ(int64(sp.Magic)), coqWords(b), coqZ(int64(sp.N)), coqGOut(o))
 		class = fmt.Sprintf("get1024/%s/%s", ityName[t], dirName(sp.Rev))
 		nontrivial = popcount1024(b) > 0
 		desc["observed"] = o
@@ -388,7 +407,7 @@ func run(e *vh.Env, sp spec) {
 			}
 			return b
 		})
-		coq = fmt.Sprintf("CPoint %s %s %s %s", sp.Op, coqWords(before), vh.CoqZ(sp.I), coqWords(after))
+		coq = fmt.Sprintf("CPoint %s %s %s %s", sp.Op, coqWords(before), coqZ(sp.I), coqWords(after))
 		class = "point/" + sp.Op
 		desc["after"], desc["panic"] = hexWords(after), msg
 	case "len":
@@ -399,7 +418,7 @@ func run(e *vh.Env, sp spec) {
 			l = b.Len()
 			nl = b.NLen()
 		}()
-		coq = fmt.Sprintf("CLen %s %s %s", coqWords(b), vh.CoqZ(int64(l)), vh.CoqZ(int64(nl)))
+		coq = fmt.Sprintf("CLen %s %s %s", coqWords(b), coqZ(int64(l)), coqZ(int64(nl)))
 		class = "len"
 		desc["len"], desc["nlen"] = l, nl
 	case "reverse":
@@ -449,13 +468,13 @@ func run(e *vh.Env, sp spec) {
 		default:
 			panic("bad op")
 		}
-		coq = fmt.Sprintf("CWord %s %s %s %s", sp.Op, coqN(uint64(w)), vh.CoqZu(sp.Arg), coqN(uint64(r)))
+		coq = fmt.Sprintf("CWord %s %s %s %s", sp.Op, coqN(uint64(w)), coqZu(sp.Arg), coqN(uint64(r)))
 		class = "word/" + sp.Op
 		desc["result"] = fmt.Sprintf("%016x", uint64(r))
 	case "wordlen":
 		w := parseWords(sp.A)[0]
 		l, nl, f := w.Len(), w.NLen(), w.Full()
-		coq = fmt.Sprintf("CWordLen %s %s %s %s", coqN(uint64(w)), vh.CoqZ(int64(l)), vh.CoqZ(int64(nl)), vh.CoqBool(f))
+		coq = fmt.Sprintf("CWordLen %s %s %s %s", coqN(uint64(w)), coqZ(int64(l)), coqZ(int64(nl)), vh.CoqBool(f))
 		class = "wordlen"
 		desc["len"], desc["nlen"], desc["full"] = l, nl, f
 	default:
